@@ -44,6 +44,9 @@ structure Table where
   visit : List (String × String)
   dispatchers : List (String × Dispatcher)
   slots : List (String × List String)
+  /-- `_visit_method`: a node returned by `enter` whose class differs from the argument's is traversed by the method
+      that `visit` registers for ITS class (`true`), or by the body of the original method (`false`) -/
+  crossKind : Bool := true
   deriving Repr, Inhabited
 
 end PyGql.Visit
